@@ -22,6 +22,14 @@ enum { NOP = 0, PUSH_BYTE = 1, PUSH_SHORT = 3, ADD = 6, NEXT = 25, COPY_NEXT = 2
 
 static void gen_action(Rng &r, unsigned len, bool subst, Bytes &a, unsigned numUser) {
     for (unsigned s = 0; s < len; ++s) {
+        if (subst && s == 0 && r.chance(1, 30)) {    // the slot is deleted and a new one inserted in its place within one rule
+            w8(a, DELETE); w8(a, INSERT); if (r.chance(1, 2)) { w8(a, PUT_GLYPH8); w8(a, r.below(NGLYPH_USED)); } w8(a, NEXT);
+            for (unsigned q = 1; q < len; ++q) w8(a, NEXT);
+            w8(a, RET_ZERO); return;
+        }
+        if (subst && s + 1 == len && r.chance(1, 30)) {   // deletes the look-ahead slot behind the matched range as well
+            w8(a, DELETE); w8(a, NEXT); w8(a, DELETE); w8(a, RET_ZERO); return;
+        }
         if (subst && r.chance(1, 25)) {     // insertion burst: many new slots from one input slot (slot-pool growth paths, growth cap)
             unsigned k = 2 + r.below(20);
             for (unsigned q = 0; q < k; ++q) { w8(a, INSERT); w8(a, PUT_GLYPH8); w8(a, r.below(NGLYPH_USED)); w8(a, NEXT); }
@@ -145,8 +153,16 @@ static void gen_prog(u64 seed, std::vector<i64> &out) {
     const bool forest = r.chance(1, 2);
     std::vector<std::vector<unsigned>> shared;
     if (forest) { unsigned ns = 1 + r.below(3); for (unsigned q = 0; q < ns; ++q) { std::vector<unsigned> m; unsigned len = 2 + r.below(3); for (unsigned z = 0; z < len; ++z) m.push_back(1 + r.below(3)); shared.push_back(m); } if (np < 2) np = 2; }
+    const bool fan = r.chance(1, 40);     // one rule re-fires in place up to maxRuleLoop (120..250) times, each time inserting a slot attached to the same parent
+    if (fan && nsub == 0) nsub = 1;
     for (unsigned i = 0; i < np; ++i) {
         PassDef pd; pd.maxloop = r.chance(1, 4) ? 1 + r.below(3) : 5 + r.below(10);
+        if (fan && i == 0) {
+            pd.maxloop = 120 + r.below(131);
+            RuleDef rd; rd.match = {1 + r.below(3), 1 + r.below(3)};
+            rd.action = {NEXT, NEXT, INSERT, PUT_GLYPH8, u8(r.below(NGLYPH_USED)), PUSH_BYTE, u8(r.chance(1, 2) ? 255 : 0), ATTR_SET_SLOT, 2, NEXT, PUSH_BYTE, 253, POP_RET};
+            pd.rules.push_back(rd); passes.push_back(pd); continue;
+        }
         unsigned nr = 1 + r.below(4);
         for (unsigned k = 0; k < nr; ++k) {
             RuleDef rd; unsigned len = 1 + r.below(3);
